@@ -214,6 +214,20 @@ pub fn cnf_strategy() -> BoxedStrategy<CnfCase> {
 }
 
 /// CNFs for the solver-facing checks: n <= 6, <= 10 clauses of length 1..4 (occasionally an empty clause)
+/// CNFs over many variables (20..130 labels, crossing 32, 64 and 128), for checks whose oracle does not need a
+/// truth table (orders, dtrees, derived vtrees, structural and sampled-assignment checks)
+pub fn big_cnf_strategy() -> BoxedStrategy<CnfCase> {
+    (20u8..=130)
+        .prop_flat_map(|nv| {
+            proptest::collection::vec(
+                proptest::collection::vec((0..nv, any::<bool>()), 1..=4),
+                20..=150,
+            )
+        })
+        .prop_map(|clauses| CnfCase { clauses })
+        .boxed()
+}
+
 pub fn sat_cnf_strategy() -> BoxedStrategy<CnfCase> {
     prop_oneof![
         6 => (1u8..=6).prop_flat_map(|nv| clauses_strategy(nv, 10, 1, 4)),
@@ -222,6 +236,8 @@ pub fn sat_cnf_strategy() -> BoxedStrategy<CnfCase> {
         2 => regroup_strategy(6),
         1 => contradiction_strategy().prop_map(|cs| cs.into_iter().map(|c| c.into_iter().map(|(v, p)| (v.min(5), p)).collect()).collect()),
         1 => (1u8..=6).prop_flat_map(|nv| clauses_strategy(nv, 6, 0, 3)),
+        // long clauses: up to every variable in a clause, and repeated / complementary literals beyond that
+        1 => (4u8..=6).prop_flat_map(|nv| clauses_strategy(nv, 8, 3, 8)),
     ]
     .prop_map(|clauses| CnfCase { clauses })
     .boxed()
